@@ -71,7 +71,7 @@ CHECKS = {
         design='4/C12'),
     'C06': dict(
         text='Bounded end-to-end symbolic execution of the public dumps '
-             'function on solver-chosen values of 15 class models: purity '
+             'function on solver-chosen values of 16 class models: purity '
              '(structural snapshot), determinism (also of the JSON flavour '
              'around a refused dump), exactly one well-formed '
              'document, no explicit tag on any node (PyYAML parse events), '
@@ -95,7 +95,7 @@ CHECKS = {
              'tables of a generated dumper and loader (whatever the dumper '
              'may write plain as str/int/float/bool/null/date comes back with '
              'that type), plus bounded end-to-end symbolic execution of '
-             'load(dumps(v)) == v over the factor space of 14 class models '
+             'load(dumps(v)) == v over the factor space of 15 class models '
              '(adversarial strings, non-finite floats, dates, paths, enums, '
              'string-likes and keys, extras, default-dropping sweeten, '
              'sweeten/savorize inverse pairs incl. non-idempotent ones '
@@ -110,10 +110,11 @@ CHECKS = {
              'only if the dumper resolves its value to str), '
              'float(repr(x))==x, CrossHair, z3.'),
     'C03': dict(
-        text='Bounded model checking of the real Recognizer on seven class '
+        text='Bounded model checking of the real Recognizer on eight class '
              'hierarchies (abstract middle, unregistered middle, ambiguous '
              'fan, diamond, custom discriminating recognisers, custom above '
-             'automatic, abstract by inheritance only) and '
+             'automatic, abstract by inheritance only, three concrete levels '
+             'with ambiguous leaves) and '
              'Union/Optional types over them with FREE symbolic top-level and '
              'value tags, against the most-derived-unique-match rule; and at '
              'load level every permutation of Union members and of the '
@@ -124,7 +125,7 @@ CHECKS = {
         text='Differential bounded model checking: the real load pipeline '
              'against a naive reference interpreter of the documented rules '
              '(vlib/ref.py) on the symbolic single-mutation document space of '
-             '22 auto-recognised class models (incl. aliases, a defaulted '
+             '26 auto-recognised class models (incl. aliases, a defaulted '
              '_yatiml_extra inside a Union, top-level collections of '
              'string-written classes, declarative seasoning, '
              'dashed keys, defaults, _yatiml_extra, enums, string-likes, an '
@@ -137,7 +138,7 @@ CHECKS = {
              'CrossHair, z3; stubs and bounds as listed in the evidence.'),
     'C13': dict(
         text='Oracle-free pairs on the real pipeline: valid and singly '
-             'mutated documents of 19 class models are loaded twice, the '
+             'mutated documents of 24 class models are loaded twice, the '
              'second time with every mapping\'s entries rotated/reversed, '
              'with all scalar/collection styles and marks changed, with three '
              'unrelated classes registered, with List/Sequence/'
@@ -149,7 +150,7 @@ CHECKS = {
         design='4/C13'),
     'C18': dict(
         text='Oracle-free pairs on the real pipeline: for every ordered pair '
-             'of nodes (i, j) of the base documents of 19 class models (i not '
+             'of nodes (i, j) of the base documents of 25 class models (i not '
              'an ancestor of j; node i optionally retagged), the document in '
              'which j IS node i (what an alias composes to) must load exactly '
              'like the document with a copy of i at j, or both must fail; 9 '
@@ -185,7 +186,7 @@ CHECKS = {
         design='4/C16'),
     'C01': dict(
         text='Bounded model checking of the real load pipeline driven through '
-             'the public load function (composer stubbed): for 19 class '
+             'the public load function (composer stubbed): for 24 class '
              'models, every single-point mutation of valid base documents '
              '(one kind of which turns a node into an alias of another), '
              'with a free symbolic tag, palette (tag, value) pairs, '
@@ -194,7 +195,9 @@ CHECKS = {
              'declared types by an independent conformance oracle.',
         design='4/C01'),
     'C08': dict(
-        text='Same symbolic document space as C01 plus self-referential '
+        text='Same symbolic document space as C01 (27 models, incl. the '
+             'seasoned/dashed ones and classes discriminated by attribute '
+             'values) plus self-referential '
              'alias graphs; the assertion is that the load returns or raises '
              'RecognitionError/YAMLError only (malformed values under explicit '
              'core tags, duplicate and complex keys, merge keys, raising '
